@@ -219,6 +219,19 @@ func runClient(w *World, h http.Handler, p TunnelPlan, o *TunnelObs) {
 					break
 				}
 			}
+		case strings.HasPrefix(op, "recvbytes:"):
+			// read data packets until n payload bytes arrived (or the stream ends)
+			n, _ := strconv.Atoi(op[10:])
+			got := 0
+			for got < n {
+				pk := c.RecvPacket()
+				if pk == nil {
+					break
+				}
+				if pk.Type == tsgu.TypeData && len(pk.Body) >= 2 {
+					got += len(pk.Body) - 2
+				}
+			}
 		case op == "idle":
 			vsched.WaitIdle()
 		}
